@@ -150,7 +150,7 @@ class Ctx:
         for k in named:
             if k.arg in ("labels", "pos"):
                 odd.append(f"`{k.arg}=` is passed as an explicit keyword of draw_networkx")
-        if len(M.binds.get(M.kw, [])) > 1:
+        if len([b for b in M.binds.get(M.kw, []) if not M._merge_update(b)]) > 1:
             odd.append(f"`{M.kw}` is re-bound")
         for name, bs in M.binds.items():
             if len(bs) == 1 and bs[0].kind == "assign" and bs[0].value is not None:
@@ -180,6 +180,12 @@ class Ctx:
                         odd.append(f"`{norm(n, 50)}` changes options that cannot be named statically")
                 elif a in ("clear", "popitem", "__delitem__", "__setitem__"):
                     odd.append(f"`{norm(n, 50)}` changes the options wholesale")
+            elif isinstance(n, ast.AugAssign) and isinstance(n.target, ast.Name) and M.is_options(ast.Name(id=n.target.id, ctx=ast.Load())):
+                if isinstance(n.op, ast.BitOr) and isinstance(n.value, ast.Dict) and all(k is not None and const_str(k) is not None for k in n.value.keys):
+                    for kk, vv in zip(n.value.keys, n.value.values):
+                        stored.setdefault(const_str(kk), []).append((n, vv))
+                else:
+                    odd.append(f"`{norm(n, 50)}` changes the options in a form that is not read")
             elif isinstance(n, ast.Subscript) and M.is_options(n.value) and isinstance(n.ctx, (ast.Store, ast.Del)):
                 k = const_str(n.slice)
                 if k is None:
@@ -206,7 +212,7 @@ class Ctx:
             from .c17_rules import remaining_helper_calls
 
             hidden = remaining_helper_calls(self, about=lambda e: isinstance(e, ast.expr) and M.is_options(e))
-            if not (extra_c or extra_s) and (hidden or (odd and any("explicit keyword" in o for o in odd) and not missing_c)):
+            if not (extra_c or extra_s) and (hidden or odd):
                 self.unsure("C17.R5", "options", "; ".join(odd + parts + ([f"`{norm(hidden[0], 50)}` receives the options but could not be flattened into draw()"] if hidden else [])), call)
             else:
                 self.bad("C17.R5", "options", "; ".join(parts) + ": other drawing options do not reach the backend unchanged", (consumed[extra_c[0]][0] if extra_c else call))
@@ -219,7 +225,10 @@ class Ctx:
             what = f"{key_} only with {opt}"
             present = atom(f"present:{opt}")
             if key_ not in stored:
-                self.bad("C17.R5", what, f"'{key_}' is never handed to the backend", call, kind="dominance")
+                if odd:
+                    self.unsure("C17.R5", what, f"no store of '{key_}' into the options found ({odd[0]})", call)
+                else:
+                    self.bad("C17.R5", what, f"'{key_}' is never handed to the backend", call, kind="dominance")
                 continue
             fs = [self._presence_formula(n) for n, _v in stored[key_]]
             if any(f is None for f in fs):
